@@ -19,7 +19,7 @@ def SameSplitView : List Tok → List Tok → Prop
   | _, _ => False
 
 /-- what the partition consists of: flags, level, and the *lengths* of the statements -/
-structure Shape where
+structure SplitShape where
   flags : SplitFlags
   consumeWs : Bool
   level : Int
@@ -28,15 +28,15 @@ structure Shape where
   doneLens : List Nat
 deriving DecidableEq
 
-def shapeOf (s : SplitState) : Shape :=
+def shapeOf (s : SplitState) : SplitShape :=
   ⟨s.flags, s.consumeWs, s.level, s.cur.length, s.cur.all Tok.isWhitespace, s.done.map List.length⟩
 
-def shapeYield (cfg : SplitCfg) (sh : Shape) (t : Tok) : Shape :=
+def shapeYield (cfg : SplitCfg) (sh : SplitShape) (t : Tok) : SplitShape :=
   if sh.consumeWs && !(cfg.eos.contains t.tt) then ⟨{}, false, 0, 0, true, sh.doneLens ++ [sh.curLen]⟩ else sh
 
-def shapeAdvance (cfg : SplitCfg) (sh : Shape) (t : Tok) : Except PyErr Shape :=
+def shapeAdvance (cfg : SplitCfg) (sh : SplitShape) (t : Tok) : Except PyErr SplitShape :=
   let r := changeSplitLevel cfg sh.flags t.tt t.val
-  let sh1 : Shape := ⟨r.snd, sh.consumeWs, sh.level + r.fst, sh.curLen + 1, sh.curAllWs && t.isWhitespace, sh.doneLens⟩
+  let sh1 : SplitShape := ⟨r.snd, sh.consumeWs, sh.level + r.fst, sh.curLen + 1, sh.curAllWs && t.isWhitespace, sh.doneLens⟩
   if sh1.level ≤ 0 && t.tt == T.Punctuation && t.val == txt ";" then .ok { sh1 with consumeWs := true }
   else if t.tt == T.Keyword then
     match splitFirst cfg.isSpace t.val with
@@ -44,10 +44,10 @@ def shapeAdvance (cfg : SplitCfg) (sh : Shape) (t : Tok) : Except PyErr Shape :=
     | some w => .ok (if cfg.upper w == txt "GO" then { sh1 with consumeWs := true } else sh1)
   else .ok sh1
 
-def shapeStep (cfg : SplitCfg) (sh : Shape) (t : Tok) : Except PyErr Shape :=
+def shapeStep (cfg : SplitCfg) (sh : SplitShape) (t : Tok) : Except PyErr SplitShape :=
   shapeAdvance cfg (shapeYield cfg sh t) t
 
-def shapeRun (cfg : SplitCfg) : Shape → List Tok → Except PyErr Shape
+def shapeRun (cfg : SplitCfg) : SplitShape → List Tok → Except PyErr SplitShape
   | sh, [] => .ok sh
   | sh, t :: ts => match shapeStep cfg sh t with
     | .ok sh' => shapeRun cfg sh' ts
@@ -116,7 +116,7 @@ theorem keyword_not_blind (tt : TType) (h : valueBlind tt = true) : (tt == T.Key
     rw [this] at h
     exact absurd h.1 (by decide)
 
-theorem shapeStep_blind (cfg : SplitCfg) (sh : Shape) (t t' : Tok) (htt : t.tt = t'.tt)
+theorem shapeStep_blind (cfg : SplitCfg) (sh : SplitShape) (t t' : Tok) (htt : t.tt = t'.tt)
     (hv : valueBlind t.tt = true ∨ t.val = t'.val) : shapeStep cfg sh t = shapeStep cfg sh t' := by
   rcases hv with hv | hv
   · have hp : (t.tt == T.Punctuation) = false := by
@@ -130,7 +130,7 @@ theorem shapeStep_blind (cfg : SplitCfg) (sh : Shape) (t t' : Tok) (htt : t.tt =
   · have : t = t' := by cases t; cases t'; simp_all
     rw [this]
 
-theorem shapeRun_blind (cfg : SplitCfg) : ∀ (ts ts' : List Tok) (sh : Shape), SameSplitView ts ts' →
+theorem shapeRun_blind (cfg : SplitCfg) : ∀ (ts ts' : List Tok) (sh : SplitShape), SameSplitView ts ts' →
     shapeRun cfg sh ts = shapeRun cfg sh ts' := by
   intro ts
   induction ts with
@@ -157,10 +157,10 @@ def tokView (cfg : SplitCfg) (t : Tok) : TType × SKind × Bool × Option Bool :
    if t.tt == T.Keyword then (splitFirst cfg.isSpace t.val).map (fun w => cfg.upper w == txt "GO") else some false)
 
 /-- `shapeStep` written as a function of the view alone -/
-def shapeStepV (cfg : SplitCfg) (sh : Shape) (v : TType × SKind × Bool × Option Bool) : Except PyErr Shape :=
-  let sh0 : Shape := if sh.consumeWs && !(cfg.eos.contains v.1) then ⟨{}, false, 0, 0, true, sh.doneLens ++ [sh.curLen]⟩ else sh
+def shapeStepV (cfg : SplitCfg) (sh : SplitShape) (v : TType × SKind × Bool × Option Bool) : Except PyErr SplitShape :=
+  let sh0 : SplitShape := if sh.consumeWs && !(cfg.eos.contains v.1) then ⟨{}, false, 0, 0, true, sh.doneLens ++ [sh.curLen]⟩ else sh
   let r := kindStep sh0.flags v.2.1
-  let sh1 : Shape := ⟨r.snd, sh0.consumeWs, sh0.level + r.fst, sh0.curLen + 1, sh0.curAllWs && v.1.isIn T.Whitespace, sh0.doneLens⟩
+  let sh1 : SplitShape := ⟨r.snd, sh0.consumeWs, sh0.level + r.fst, sh0.curLen + 1, sh0.curAllWs && v.1.isIn T.Whitespace, sh0.doneLens⟩
   if sh1.level ≤ 0 && v.1 == T.Punctuation && v.2.2.1 then .ok { sh1 with consumeWs := true }
   else if v.1 == T.Keyword then
     match v.2.2.2 with
@@ -168,7 +168,7 @@ def shapeStepV (cfg : SplitCfg) (sh : Shape) (v : TType × SKind × Bool × Opti
     | some b => .ok (if b then { sh1 with consumeWs := true } else sh1)
   else .ok sh1
 
-theorem shapeStep_eq_V (cfg : SplitCfg) (sh : Shape) (t : Tok) : shapeStep cfg sh t = shapeStepV cfg sh (tokView cfg t) := by
+theorem shapeStep_eq_V (cfg : SplitCfg) (sh : SplitShape) (t : Tok) : shapeStep cfg sh t = shapeStepV cfg sh (tokView cfg t) := by
   unfold shapeStep shapeYield shapeAdvance shapeStepV tokView changeSplitLevel Tok.isWhitespace
   simp only
   by_cases hkw : (t.tt == T.Keyword) = true
@@ -177,11 +177,11 @@ theorem shapeStep_eq_V (cfg : SplitCfg) (sh : Shape) (t : Tok) : shapeStep cfg s
   · have : (t.tt == T.Keyword) = false := by simpa using hkw
     simp [this]
 
-theorem shapeStep_view (cfg : SplitCfg) (sh : Shape) (t t' : Tok) (h : tokView cfg t = tokView cfg t') :
+theorem shapeStep_view (cfg : SplitCfg) (sh : SplitShape) (t t' : Tok) (h : tokView cfg t = tokView cfg t') :
     shapeStep cfg sh t = shapeStep cfg sh t' := by
   rw [shapeStep_eq_V, shapeStep_eq_V, h]
 
-theorem shapeRun_view (cfg : SplitCfg) : ∀ (ts ts' : List Tok) (sh : Shape), ts.map (tokView cfg) = ts'.map (tokView cfg) →
+theorem shapeRun_view (cfg : SplitCfg) : ∀ (ts ts' : List Tok) (sh : SplitShape), ts.map (tokView cfg) = ts'.map (tokView cfg) →
     shapeRun cfg sh ts = shapeRun cfg sh ts' := by
   intro ts
   induction ts with
@@ -205,7 +205,7 @@ theorem shapeRun_view (cfg : SplitCfg) : ∀ (ts ts' : List Tok) (sh : Shape), t
 def partitionLens (r : Except PyErr (List (List Tok))) : Except PyErr (List Nat) := r.map (·.map List.length)
 
 /-- the lengths of the statements `splitProcess` returns, computed from the final shape alone -/
-def shapeFinish (r : Except PyErr Shape) : Except PyErr (List Nat) :=
+def shapeFinish (r : Except PyErr SplitShape) : Except PyErr (List Nat) :=
   match r with
   | .error e => .error e
   | .ok sh => if sh.curLen != 0 && !sh.curAllWs then .ok (sh.doneLens ++ [sh.curLen]) else .ok sh.doneLens
